@@ -82,11 +82,13 @@ MAKE = {
     "str": lambda o: "%015d" % (o + OFF),
     "custom": lambda o: CKey(o),
     "bigint": lambda o: (o + OFF) * (2 ** 70),       # beyond C long: the int fast path falls through to rich compare
+    "mixint": lambda o: (o + OFF + 0) if o < 0 else (2 ** 63 + o),   # some keys fit a C long, some do not
 }
 def ord_of(flav, k):
     if flav == "int": return k - OFF
     if flav == "str": return int(k) - OFF
     if flav == "custom": return k.v
+    if flav == "mixint": return (k - 2 ** 63) if k >= 2 ** 63 else (k - OFF)
     return k // (2 ** 70) - OFF
 
 def collect_leaves(n, out):
@@ -126,6 +128,7 @@ class Exec:
         self.base = {}      # id-free baseline refcounts: ("k", serial) / ("v", serial) -> count
         self.iters = {}
         self.opno = 0
+        self.epoch = 0      # successful mutations so far (the oracle's own notion of 'modified', independent of the tree's stamp)
     def fail(self, tag, msg):
         self.stats["oracle_failures"] += 1
         self.oracle.write("[%s] case=%s op %d: %s\n" % (tag, self.case, self.opno, msg)); self.oracle.flush()
@@ -293,6 +296,7 @@ class Exec:
         if op == "set":
             k = self.key(a[0]); v = self.val(a[1]); o = ord_of(self.flav, k)
             t[k] = v
+            self.epoch += 1
             if o in d: d[o] = (d[o][0], self.vser(v))
             else: d[o] = (self.kser(k), self.vser(v))
             del k, v
@@ -302,6 +306,7 @@ class Exec:
             try: del t[k]; got = "ok"
             except KeyError: got = "keyerror"
             want = "ok" if o in d else "keyerror"
+            if o in d: self.epoch += 1
             d.pop(o, None)
             if got != want: self.fail("C12", "del %s: %s expected %s" % (a[0], got, want))
             k = None
@@ -341,11 +346,11 @@ class Exec:
             return "[" + ",".join(self.fmtv(v) for v in got) + "]"
         if op == "iter":
             if a[0] == "new":
-                self.iters[a[1]] = (t.items() if a[2] == "items" else (t.keys() if self.opno % 2 else iter(t)), a[2], t._verif_dump()[2], False)
+                self.iters[a[1]] = (t.items() if a[2] == "items" else (t.keys() if self.opno % 2 else iter(t)), a[2], self.epoch, False)
                 return "ok"
             if a[1] not in self.iters: return "no-iter"
             it, kind, stamp, done = self.iters[a[1]]
-            modified = t._verif_dump()[2] != stamp
+            modified = self.epoch != stamp
             try:
                 x = next(it)
                 got = ("%s=%s" % (self.fmtk(x[0]), self.fmtv(x[1]))) if kind == "items" else self.fmtk(x)
@@ -383,7 +388,7 @@ class Exec:
                         else: raise
                 gots = self.fmtv(got)
             except KeyError: gots = "keyerror"
-            if o in d: want = str(d.pop(o)[1])
+            if o in d: want = str(d.pop(o)[1]); self.epoch += 1
             elif args: want = self.fmtv(args[0])
             else: want = "keyerror"
             if gots != want: self.fail("C12", "pop(%s): %s expected %s" % (a[0], gots, want))
@@ -401,7 +406,7 @@ class Exec:
                 gots = "%s=%s" % (self.fmtk(k), self.fmtv(v)); got = (k, v)
             except KeyError: gots = "keyerror"; got = None
             if d:
-                mo = min(d); want = d.pop(mo)
+                mo = min(d); want = d.pop(mo); self.epoch += 1
                 if got is None or not self.same([got], [want]): self.fail("C12", "popitem: expected the smallest entry")
             elif got is not None: self.fail("C12", "popitem on an empty map returned an entry")
             got = None; k = None; v = None
@@ -413,7 +418,7 @@ class Exec:
                 try: got = t[k]
                 except KeyError: t[k] = dv; got = dv
             if o in d: want = d[o][1]
-            else: d[o] = (self.kser(k), self.vser(dv)); want = self.vser(dv)
+            else: d[o] = (self.kser(k), self.vser(dv)); want = self.vser(dv); self.epoch += 1
             if self.vser(got) != want: self.fail("C12", "setdefault(%s): wrong object" % a[0])
             r = self.fmtv(got); got = None; k = None; dv = None
             self.need_after = True; return r
@@ -424,6 +429,7 @@ class Exec:
                 for k, v in pairs: t[k] = v
             for k, v in pairs:
                 o = ord_of(self.flav, k)
+                self.epoch += 1
                 if o in d: d[o] = (d[o][0], self.vser(v))
                 else: d[o] = (self.kser(k), self.vser(v))
             pairs = None; k = None; v = None
@@ -449,6 +455,7 @@ class Exec:
                 while len(t) > 0:
                     for k in t.keys():
                         del t[k]; break
+            if d: self.epoch += 1
             d.clear(); self.need_after = True; return "ok"
         raise ValueError("bad op " + op)
     def after(self):
@@ -471,7 +478,7 @@ class Exec:
 # ---------------------------------------------------------------- generators
 def gen_case(r, n, kind):
     mode = r.pick(["type", "subclass", "wrapper", "wrapper"])
-    flav = r.pick(["int", "int", "str", "custom", "bigint"])
+    flav = r.pick(["int", "int", "str", "custom", "bigint", "mixint"])
     yield "cfg mode " + mode
     yield "cfg flavour " + flav
     caps = [4, 4, 4, 5, 5, 6, 7, 8, 9, 16, 33, 64, 128, 4 + r.below(40)]
@@ -490,7 +497,8 @@ def gen_case(r, n, kind):
         o = r.pick(sorted(shadow)) if present and shadow else lo + r.below(universe)
         return o, newkey(o)
     vser = [0]
-    def val():
+    def val(o=None):
+        if o is not None and shadow.get(o) not in (None, 1) and r.chance(20): return str(shadow[o])   # the object already stored under this key
         if r.chance(5): return "0"
         vser[0] += 1; return str(vser[0])
     grow = True
@@ -500,8 +508,8 @@ def gen_case(r, n, kind):
         x = r.below(100)
         mut = True
         if x < (45 if grow else 12):
-            o, k = key(r.chance(25)); shadow[o] = 1
-            yield "C set %s %s" % (k, val())
+            o, k = key(r.chance(35)); v = val(o); shadow[o] = int(v) if v != "0" else 1
+            yield "C set %s %s" % (k, v)
         elif x < (58 if grow else 55):
             o, k = key(r.chance(85)); shadow.pop(o, None)
             yield "C del %s" % k
@@ -514,10 +522,11 @@ def gen_case(r, n, kind):
         elif x < 73:
             yield "C " + r.pick(["items", "keys", "values"]); mut = False
         elif x < 80:
-            if iters and r.chance(70):
+            if iters and r.chance(60):
                 yield "C iter next " + r.pick(iters)
             else:
-                nm = "i%d" % len(iters); iters.append(nm)
+                nm = "i%d" % (len(iters) if len(iters) < 4 else r.below(4))
+                if nm not in iters: iters.append(nm)
                 yield "C iter new %s %s" % (nm, r.pick(["keys", "items"]))
             mut = False
         elif x < 83:
@@ -529,12 +538,12 @@ def gen_case(r, n, kind):
             if shadow: shadow.pop(min(shadow))
             yield "C wpopitem"
         elif x < 93:
-            o, k = key(r.chance(50)); shadow[o] = 1
-            yield "C wsetdefault %s %s" % (k, val())
+            o, k = key(r.chance(50)); v = val(o); shadow.setdefault(o, int(v) if v != "0" else 1)
+            yield "C wsetdefault %s %s" % (k, v)
         elif x < 96:
             m = r.below(6); ps = []
             for _ in range(m):
-                o, k = key(); shadow[o] = 1; ps.append("%s=%s" % (k, val()))
+                o, k = key(r.chance(30)); v = val(o); shadow[o] = int(v) if v != "0" else 1; ps.append("%s=%s" % (k, v))
             yield "C wupdate " + (",".join(ps) if ps else "-")
         elif x < 98:
             yield "C wcopy"; iters = []
@@ -545,6 +554,12 @@ def gen_case(r, n, kind):
         if mut and (n <= 100 or r.chance(20)):
             yield "C dump"
             if r.chance(30): yield "C refs"
+        if mut and iters and r.chance(35):
+            yield "C iter next " + r.pick(iters)          # a stale iterator must fail fast right after the mutation
+        if mut and r.chance(20):
+            nm = "i%d" % (len(iters) if len(iters) < 4 else r.below(4))
+            if nm not in iters: iters.append(nm)
+            yield "C iter new %s %s" % (nm, r.pick(["keys", "items"]))      # a fresh iterator just before the next mutation
     for nm in iters[:3]:
         yield "C iter next " + nm
     yield "C dump"
